@@ -14,6 +14,7 @@ import Poulpy.Lemmas.AccAdd
 import Poulpy.Lemmas.EpTotal
 import Poulpy.Lemmas.HeadRoom
 import Poulpy.Lemmas.TensorCols
+import Poulpy.Lemmas.TensorValue
 import Poulpy.Props.C02
 import Poulpy.Props.C07
 
@@ -1354,5 +1355,167 @@ example : tensorApply true false 1 4 2 4 4 [[[1], [0]], [[2], [1]], [[0], [3]], 
     = (tensorApply false false 1 4 2 4 4 [[[1], [0]], [[2], [1]], [[0], [3]], [[1], [1]]] 8 [[[1], [0]], [[2], [1]], [[0], [3]], [[1], [1]]] 8 (zeroCols 1 10 2)).map
         (fun pr => List.zipWith (vecAddAssignW w64) (zeroCols 1 10 2) pr) :=
   tensorApply_acc_eq_add false 1 4 2 4 4 _ 8 _ 8 _ _ (by decide) (by decide) (by decide) (by decide) (by unfold ColShape; decide)
+
+/-! ## The three tensor entry points: decrypt (with the secret tensor) to the product at the documented scale -/
+
+/-- **`tensor_apply_decrypts`** — `glwe_tensor_apply`, END TO END, EVERY rank, any radix pair (`rb ≤ 61`), every `cnv_offset`, both accumulator
+widths: the call returns a tensor `T` that decrypts, with `glwe_tensor_decrypt`'s grouped secret `(s, s⊗s)` (`ι(skG[cix(i,j) − 1]) = σ_i σ_j`,
+`σ_0 = 1`), to the product of the two (masked) phases at the documented scale (`Core.TensorSpec`):
+`A·phase_{skG}(T) = K·β·(Σ_i σ_i val(a'_i))·(Σ_j σ_j val(b'_j)) + Σ_i (σ_i² rD_i + Σ_{j>i} σ_i σ_j (rP_ij − rD_i − rD_j))`, `A = β^{F−S}·2^{b·S+(−lo)⁺}`,
+`K = 2^{rb·rs}·2^{lo⁺}`, every residual = rescaled rounding of ONE normalisation (`‖e‖_∞ ≤ normTolOff`, from C08) + multiple of the torus modulus −
+the explicit dropped / skipped limbs of that convolution.  Only analytic hypothesis: accumulator head-room (`mul_plain_headroom`). -/
+theorem tensor_apply_decrypts (big128 : Bool) (N rb rs off b : Nat) (a bb : List Col) (aK bK : Nat) (res0 : List Col) (skG : List Poly)
+    (σ : ℕ → Ks.R N) (H : Int) (sa sb cols : Nat) (hN : 0 < N)
+    (hcols : a.length = cols) (hcb : bb.length = cols) (hc1 : 1 ≤ cols)
+    (ha : ∀ x ∈ a, x.length = sa ∧ ∀ l ∈ x, l.length = N) (hbb : ∀ x ∈ bb, x.length = sb ∧ ∀ l ∈ x, l.length = N)
+    (hsa : 1 ≤ sa) (hsb : 1 ≤ sb) (hhi : (cnvOffsetSplit b off).1 ≤ sa + sb - 1)
+    (hr0 : res0.length = (cols + 1) * cols / 2)
+    (hrb1 : 1 ≤ rb) (hrb : rb ≤ 61) (hb1 : 1 ≤ b) (hb : b ≤ 62) (hH0 : 0 ≤ H) (hH : H + 8 ≤ 2 ^ (bitsOf big128 - 2))
+    (haccD : ∀ i, i < cols → ∀ l ∈ Hal.cnvApplyCol N (limbBoundWithOffset (sa + sb - (cnvOffsetSplit b off).1) rs rb b (cnvOffsetSplit b off).2)
+        (cnvOffsetSplit b off).1 ((prepAll N (msbMaskBottomLimb b aK) a).getD i []) ((prepAll N (msbMaskBottomLimb b bK) bb).getD i []),
+        ∀ v ∈ l, |v| ≤ H)
+    (haccP : ∀ i j, i < j → j < cols → ∀ l ∈ Hal.cnvApplyCol N (limbBoundWithOffset (sa + sb - (cnvOffsetSplit b off).1) rs rb b (cnvOffsetSplit b off).2)
+        (cnvOffsetSplit b off).1
+        (Hal.colAdd N ((prepAll N (msbMaskBottomLimb b aK) a).getD i []) ((prepAll N (msbMaskBottomLimb b aK) a).getD j []))
+        (Hal.colAdd N ((prepAll N (msbMaskBottomLimb b bK) bb).getD i []) ((prepAll N (msbMaskBottomLimb b bK) bb).getD j [])),
+        ∀ v ∈ l, |v| ≤ H)
+    (hskl : skG.length = (cols + 1) * cols / 2 - 1) (hσ0 : σ 0 = 1)
+    (hτ : ∀ i j, i ≤ j → j < cols → 0 < cix cols i j → Ks.ι N (skG.getD (cix cols i j - 1) []) = σ i * σ j) :
+    ∃ T, tensorApply false big128 N rb rs off b a aK bb bK res0 = some T ∧ TensorSpec N rb rs off b a bb aK bK skG σ sa sb cols T :=
+  tensorApply_spec big128 N rb rs off b a bb aK bK res0 skG σ H sa sb cols hN hcols hcb hc1 ha hbb hsa hsb hhi hr0 hrb1 hrb hb1 hb hH0 hH
+    haccD haccP hskl hσ0 hτ
+
+/-- rank 1: the grouped secret `[s, s⋆s]` -/
+example : ∃ T, tensorApply false false 1 4 2 4 4 [[[3], [0]], [[1], [0]]] 8 [[[2], [0]], [[1], [0]]] 8 (zeroCols 1 3 2) = some T ∧ T.length = 3 := by
+  obtain ⟨T, h1, h2, _⟩ := tensor_apply_decrypts false 1 4 2 4 4 [[[3], [0]], [[1], [0]]] [[[2], [0]], [[1], [0]]] 8 8 (zeroCols 1 3 2)
+    [[2], Hal.negMul [2] [2]] (fun i => if i = 0 then 1 else Ks.ι 1 [2]) (2 ^ 61) 2 2 2 (by decide) rfl rfl (by decide)
+    (by decide) (by decide) (by decide) (by decide) (by decide) (by decide) (by decide) (by decide) (by decide) (by decide) (by decide) (by decide)
+    (by decide)
+    (by
+      intro i j hij hj
+      have h01 : i = 0 ∧ j = 1 := by omega
+      obtain ⟨rfl, rfl⟩ := h01
+      decide)
+    (by decide) rfl
+    (by
+      intro i j hij hj hpos
+      have hcases : (i = 0 ∧ j = 1) ∨ (i = 1 ∧ j = 1) := by
+        have hj2 : j < 2 := hj
+        have : ¬ (i = 0 ∧ j = 0) := by
+          rintro ⟨rfl, rfl⟩; simp [cix, colIdx] at hpos
+        omega
+      rcases hcases with ⟨rfl, rfl⟩ | ⟨rfl, rfl⟩
+      · have e : cix 2 0 1 - 1 = 0 := by decide
+        rw [e]; simp
+      · have e : cix 2 1 1 - 1 = 1 := by decide
+        rw [e]
+        show Ks.ι 1 (Hal.negMul [2] [2]) = _
+        rw [Ks.ι_negMul 1 _ _ rfl (by decide)]; simp)
+  exact ⟨T, h1, h2⟩
+
+/-- **`tensor_square_decrypts`** — `glwe_tensor_square_apply(a)`: the same statement with `b = a` (by `tensorSquare_eq_tensorApply`, every rank) -/
+theorem tensor_square_decrypts (big128 : Bool) (N rb rs off b : Nat) (a : List Col) (aK : Nat) (res0 : List Col) (skG : List Poly)
+    (σ : ℕ → Ks.R N) (H : Int) (sa cols : Nat) (hN : 0 < N)
+    (hcols : a.length = cols) (hc1 : 1 ≤ cols)
+    (ha : ∀ x ∈ a, x.length = sa ∧ ∀ l ∈ x, l.length = N)
+    (hsa : 1 ≤ sa) (hhi : (cnvOffsetSplit b off).1 ≤ sa + sa - 1)
+    (hr0 : res0.length = (cols + 1) * cols / 2)
+    (hrb1 : 1 ≤ rb) (hrb : rb ≤ 61) (hb1 : 1 ≤ b) (hb : b ≤ 62) (hH0 : 0 ≤ H) (hH : H + 8 ≤ 2 ^ (bitsOf big128 - 2))
+    (haccD : ∀ i, i < cols → ∀ l ∈ Hal.cnvApplyCol N (limbBoundWithOffset (sa + sa - (cnvOffsetSplit b off).1) rs rb b (cnvOffsetSplit b off).2)
+        (cnvOffsetSplit b off).1 ((prepAll N (msbMaskBottomLimb b aK) a).getD i []) ((prepAll N (msbMaskBottomLimb b aK) a).getD i []),
+        ∀ v ∈ l, |v| ≤ H)
+    (haccP : ∀ i j, i < j → j < cols → ∀ l ∈ Hal.cnvApplyCol N (limbBoundWithOffset (sa + sa - (cnvOffsetSplit b off).1) rs rb b (cnvOffsetSplit b off).2)
+        (cnvOffsetSplit b off).1
+        (Hal.colAdd N ((prepAll N (msbMaskBottomLimb b aK) a).getD i []) ((prepAll N (msbMaskBottomLimb b aK) a).getD j []))
+        (Hal.colAdd N ((prepAll N (msbMaskBottomLimb b aK) a).getD i []) ((prepAll N (msbMaskBottomLimb b aK) a).getD j [])),
+        ∀ v ∈ l, |v| ≤ H)
+    (hskl : skG.length = (cols + 1) * cols / 2 - 1) (hσ0 : σ 0 = 1)
+    (hτ : ∀ i j, i ≤ j → j < cols → 0 < cix cols i j → Ks.ι N (skG.getD (cix cols i j - 1) []) = σ i * σ j) :
+    ∃ T, tensorSquare big128 N rb rs off b a aK res0 = some T ∧ TensorSpec N rb rs off b a a aK aK skG σ sa sa cols T := by
+  rw [tensorSquare_eq_tensorApply big128 N rb rs off b a aK res0 hrb1 hb1]
+  exact tensor_apply_decrypts big128 N rb rs off b a a aK aK res0 skG σ H sa sa cols hN hcols hcols hc1 ha ha hsa hsa hhi hr0 hrb1 hrb hb1 hb
+    hH0 hH haccD haccP hskl hσ0 hτ
+
+example : ∃ T, tensorSquare false 1 4 2 4 4 [[[3], [0]], [[1], [0]]] 8 (zeroCols 1 3 2) = some T ∧ T.length = 3 := by
+  obtain ⟨T, h1, h2, _⟩ := tensor_square_decrypts false 1 4 2 4 4 [[[3], [0]], [[1], [0]]] 8 (zeroCols 1 3 2)
+    [[2], Hal.negMul [2] [2]] (fun i => if i = 0 then 1 else Ks.ι 1 [2]) (2 ^ 61) 2 2 (by decide) rfl (by decide)
+    (by decide) (by decide) (by decide) (by decide) (by decide) (by decide) (by decide) (by decide) (by decide) (by decide)
+    (by decide)
+    (by
+      intro i j hij hj
+      have h01 : i = 0 ∧ j = 1 := by omega
+      obtain ⟨rfl, rfl⟩ := h01
+      decide)
+    (by decide) rfl
+    (by
+      intro i j hij hj hpos
+      have hcases : (i = 0 ∧ j = 1) ∨ (i = 1 ∧ j = 1) := by
+        have hj2 : j < 2 := hj
+        have : ¬ (i = 0 ∧ j = 0) := by
+          rintro ⟨rfl, rfl⟩; simp [cix, colIdx] at hpos
+        omega
+      rcases hcases with ⟨rfl, rfl⟩ | ⟨rfl, rfl⟩
+      · have e : cix 2 0 1 - 1 = 0 := by decide
+        rw [e]; simp
+      · have e : cix 2 1 1 - 1 = 1 := by decide
+        rw [e]
+        show Ks.ι 1 (Hal.negMul [2] [2]) = _
+        rw [Ks.ι_negMul 1 _ _ rfl (by decide)]; simp)
+  exact ⟨T, h1, h2⟩
+
+/-- **`tensor_apply_add_assign_decrypts`** — `glwe_tensor_apply_add_assign`: the result is the previous tensor `res0` plus (column-wise
+`vec_znx_add_assign`, exact under head-room: `C02L.vecAddAssign_nf`) a tensor `T` satisfying `Core.TensorSpec`, every rank. -/
+theorem tensor_apply_add_assign_decrypts (big128 : Bool) (N rb rs off b : Nat) (a bb : List Col) (aK bK : Nat) (res0 : List Col) (skG : List Poly)
+    (σ : ℕ → Ks.R N) (H : Int) (sa sb cols : Nat) (hN : 0 < N)
+    (hcols : a.length = cols) (hcb : bb.length = cols) (hc1 : 1 ≤ cols)
+    (ha : ∀ x ∈ a, x.length = sa ∧ ∀ l ∈ x, l.length = N) (hbb : ∀ x ∈ bb, x.length = sb ∧ ∀ l ∈ x, l.length = N)
+    (hsa : 1 ≤ sa) (hsb : 1 ≤ sb) (hhi : (cnvOffsetSplit b off).1 ≤ sa + sb - 1)
+    (hr0 : res0.length = (cols + 1) * cols / 2) (hshape : ∀ r ∈ res0, ColShape N rs r)
+    (hrb1 : 1 ≤ rb) (hrb : rb ≤ 61) (hb1 : 1 ≤ b) (hb : b ≤ 62) (hH0 : 0 ≤ H) (hH : H + 8 ≤ 2 ^ (bitsOf big128 - 2))
+    (haccD : ∀ i, i < cols → ∀ l ∈ Hal.cnvApplyCol N (limbBoundWithOffset (sa + sb - (cnvOffsetSplit b off).1) rs rb b (cnvOffsetSplit b off).2)
+        (cnvOffsetSplit b off).1 ((prepAll N (msbMaskBottomLimb b aK) a).getD i []) ((prepAll N (msbMaskBottomLimb b bK) bb).getD i []),
+        ∀ v ∈ l, |v| ≤ H)
+    (haccP : ∀ i j, i < j → j < cols → ∀ l ∈ Hal.cnvApplyCol N (limbBoundWithOffset (sa + sb - (cnvOffsetSplit b off).1) rs rb b (cnvOffsetSplit b off).2)
+        (cnvOffsetSplit b off).1
+        (Hal.colAdd N ((prepAll N (msbMaskBottomLimb b aK) a).getD i []) ((prepAll N (msbMaskBottomLimb b aK) a).getD j []))
+        (Hal.colAdd N ((prepAll N (msbMaskBottomLimb b bK) bb).getD i []) ((prepAll N (msbMaskBottomLimb b bK) bb).getD j [])),
+        ∀ v ∈ l, |v| ≤ H)
+    (hskl : skG.length = (cols + 1) * cols / 2 - 1) (hσ0 : σ 0 = 1)
+    (hτ : ∀ i j, i ≤ j → j < cols → 0 < cix cols i j → Ks.ι N (skG.getD (cix cols i j - 1) []) = σ i * σ j) :
+    ∃ T, tensorApply true big128 N rb rs off b a aK bb bK res0 = some (List.zipWith (vecAddAssignW w64) res0 T) ∧
+      TensorSpec N rb rs off b a bb aK bK skG σ sa sb cols T := by
+  obtain ⟨T, h1, h2⟩ := tensor_apply_decrypts big128 N rb rs off b a bb aK bK res0 skG σ H sa sb cols hN hcols hcb hc1 ha hbb hsa hsb hhi hr0
+    hrb1 hrb hb1 hb hH0 hH haccD haccP hskl hσ0 hτ
+  refine ⟨T, ?_, h2⟩
+  rw [tensorApply_acc_eq_add big128 N rb rs off b a aK bb bK res0 res0 hrb1 hb1 (by rw [hcols]; exact hr0) (by rw [hcols]; exact hr0) hshape, h1]
+  rfl
+
+example : ∃ T, tensorApply true false 1 4 2 4 4 [[[3], [0]], [[1], [0]]] 8 [[[2], [0]], [[1], [0]]] 8 (zeroCols 1 3 2)
+    = some (List.zipWith (vecAddAssignW w64) (zeroCols 1 3 2) T) ∧ T.length = 3 := by
+  obtain ⟨T, h1, h2, _⟩ := tensor_apply_add_assign_decrypts false 1 4 2 4 4 [[[3], [0]], [[1], [0]]] [[[2], [0]], [[1], [0]]] 8 8 (zeroCols 1 3 2)
+    [[2], Hal.negMul [2] [2]] (fun i => if i = 0 then 1 else Ks.ι 1 [2]) (2 ^ 61) 2 2 2 (by decide) rfl rfl (by decide)
+    (by decide) (by decide) (by decide) (by decide) (by decide) (by decide) (by unfold ColShape; decide) (by decide) (by decide) (by decide) (by decide) (by decide) (by decide)
+    (by decide)
+    (by
+      intro i j hij hj
+      have h01 : i = 0 ∧ j = 1 := by omega
+      obtain ⟨rfl, rfl⟩ := h01
+      decide)
+    (by decide) rfl
+    (by
+      intro i j hij hj hpos
+      have hcases : (i = 0 ∧ j = 1) ∨ (i = 1 ∧ j = 1) := by
+        have hj2 : j < 2 := hj
+        have : ¬ (i = 0 ∧ j = 0) := by
+          rintro ⟨rfl, rfl⟩; simp [cix, colIdx] at hpos
+        omega
+      rcases hcases with ⟨rfl, rfl⟩ | ⟨rfl, rfl⟩
+      · have e : cix 2 0 1 - 1 = 0 := by decide
+        rw [e]; simp
+      · have e : cix 2 1 1 - 1 = 1 := by decide
+        rw [e]
+        show Ks.ι 1 (Hal.negMul [2] [2]) = _
+        rw [Ks.ι_negMul 1 _ _ rfl (by decide)]; simp)
+  exact ⟨T, h1, h2⟩
 
 end C05
